@@ -3,7 +3,7 @@
 check(s) of its property, undo. Results go to /verif/seeded/results/<ID>_<K>.json. /repo must be clean;
 evidence files are restored."""
 import json, os, subprocess, sys, shutil, time, glob
-R = "/verif/seeded/results"
+R = os.environ.get("EVAL_RESULTS", "/verif/seeded/results")
 S = os.environ.get("EVAL_SRC", "/verif/seeded")  # with EVAL_SRC=<root> EVAL_OFFSET=<n>: not yet imported changes, stored as <ID>/<k+n>
 OFF = int(os.environ.get("EVAL_OFFSET", "0"))
 REPO = os.environ.get("EVAL_REPO", "/repo")
